@@ -15,6 +15,7 @@ package configmigrate_test
 import (
 	"bytes"
 	"fmt"
+	"math"
 	"io"
 	"os"
 	"path/filepath"
@@ -830,5 +831,86 @@ func TestVFC13Bytes(t *testing.T) {
 			t.Fatalf("Migrate accepted a text the YAML library rejects (%v):\n%s", derr, body)
 		}
 		vfSample("byte_edited_text", c, res, vfMap{"edits": descs})
+	})
+}
+
+// TestVFC13BigUnsigned: integer settings that a step moves, with values the
+// unsigned fields of the configuration hold but a signed integer does not
+// (rlimit_nofile: 18446744073709551615 is "unlimited").  The upgrade either
+// fails and leaves the bytes alone, or the number arrives unchanged at the place
+// the step moves it to -- never as another number.
+func TestVFC13BigUnsigned(t *testing.T) {
+	vfkit.Begin(t)
+	type moved struct {
+		key     string // where it is up to schema upTo
+		section string // "" = top level
+		upTo    int
+	}
+	settings := []moved{
+		{"rlimit_nofile", "", 10},
+		{"safebrowsing_cache_size", "dns", 25}, {"safesearch_cache_size", "dns", 25}, {"parental_cache_size", "dns", 25},
+	}
+	rapid.Check(t, func(t *rapid.T) {
+		m := rapid.SampledFrom(settings).Draw(t, "setting")
+		v := rapid.IntRange(max(0, m.upTo-6), m.upTo).Draw(t, "version")
+		val := rapid.SampledFrom([]uint64{math.MaxUint64, math.MaxInt64 + 1, math.MaxUint64 - 4096, 1 << 63, 9223372036854775807, 8192}).Draw(t, "value")
+		s := vfDrawSettings(t, v, false)
+		doc := vfRender(s, v)
+		if m.section == "" {
+			doc[m.key] = val
+		} else {
+			sec, ok := doc[m.section].(vfMap)
+			if !ok {
+				sec = vfMap{}
+				doc[m.section] = sec
+			}
+			sec[m.key] = val
+		}
+		body, err := yaml.Marshal(vfEncodable(doc))
+		if err != nil {
+			t.Fatalf("VERIF-INCONCLUSIVE %v", err)
+		}
+		dirs := vfNewDirs(t)
+		defer dirs.remove()
+
+		out, upgraded, merr := vfMigrate(t, dirs, body, vfLast)
+		vfC13.Eval()
+		vfC13.Class("big_unsigned:" + m.key)
+		vfC13.Nontrivial(fmt.Sprintf("big_unsigned|%s|%d|%d", m.key, v, val))
+		if merr != nil {
+			vfC13.Class("big_unsigned:refused")
+			if upgraded || !bytes.Equal(out, body) {
+				t.Fatalf("Migrate failed (%v) for %s: %d at schema %d, but did not hand the input back unchanged", merr, m.key, val, v)
+			}
+
+			return
+		}
+		tree, derr := vfDecode(out)
+		if derr != nil {
+			t.Fatalf("Migrate succeeded for %s: %d at schema %d, but its output does not parse: %v", m.key, val, v, derr)
+		}
+		var found []any
+		var walk func(x any)
+		walk = func(x any) {
+			switch y := x.(type) {
+			case vfMap:
+				for k, e := range y {
+					if k == m.key {
+						found = append(found, e)
+					}
+					walk(e)
+				}
+			case vfList:
+				for _, e := range y {
+					walk(e)
+				}
+			}
+		}
+		walk(tree)
+		same := len(found) == 1 && fmt.Sprint(found[0]) == fmt.Sprint(val)
+		if !same {
+			t.Fatalf("%s: %d in a configuration of schema %d: after the upgrade the document holds %v for it\noutput:\n%s", m.key, val, v, found, out)
+		}
+		vfC13.Class("big_unsigned:carried")
 	})
 }
